@@ -152,14 +152,21 @@ def run_history(yarl, steps, mode, run_id, rnd):
                 pool.append(u)
                 gen.append(nextgen)
             nextgen += 1
+        def pre(f):
+            """faulted mode: the call is first attempted with 1..60 stack frames left (outcomes discarded) -- a failed call is
+            history too, and must leave nothing behind that changes the result of the same call made properly"""
+            if mode == "faulted":
+                U.under_recursion_faults(f)
         k = st["k"]
         try:
             if k == "new":
+                pre(lambda: yarl.URL(st["s"], encoded=st["encoded"]))
                 res, u = outcome_of(lambda: yarl.URL(st["s"], encoded=st["encoded"]))
                 facts.append({"k": "call:" + J(["URL", st["s"], st["encoded"]]), "v": J(canon_result(res, yarl))})
                 if u is not None:
                     add(u)
             elif k == "build":
+                pre(lambda: U._create(st["st"]))
                 res, u = outcome_of(lambda: U._create(st["st"]))
                 facts.append({"k": "call:" + J(["build", st["st"]]), "v": J(canon_result(res, yarl))})
                 if u is not None:
@@ -190,6 +197,7 @@ def run_history(yarl, steps, mode, run_id, rnd):
                     facts.append({"k": "argunchanged:" + J([stp, i, mode]), "v": J(U._same(argobj, before))})
                     facts.append({"k": "argunchanged:" + J([stp, i, mode]), "v": "true"})
                 else:
+                    pre(lambda: str(U._apply(recv, stp, other)))
                     res, u = outcome_of(lambda: U._apply(recv, stp, other))
                 facts.append({"k": "call:" + J([stp, val5(recv), key_extra]), "v": J(canon_result(res, yarl))})
                 if u is not None and isinstance(u, yarl.URL):
@@ -214,6 +222,7 @@ def run_history(yarl, steps, mode, run_id, rnd):
                             facts.append({"k": "call:" + J([st["st"], val5(w), None]), "v": J(canon_result(res, yarl))})
             elif k == "read":
                 j = slot(st["slot"])
+                pre(lambda: obs(pool[j], st["fields"]))
                 o = obs(pool[j], st["fields"])
                 v5 = J(val5(pool[j]))
                 for f, v in o.items():
@@ -283,7 +292,7 @@ def main():
         rnd = random.Random(seed * 100003 + h)
         steps = gen_history(rnd, nsteps)
         events = []
-        for mode in ("cold", "warm", "cold"):
+        for mode in ("cold", "faulted", "warm", "cold"):
             events += list(run_history(yarl, steps, mode, f"{h}-{mode}{len(events)}", random.Random(seed + h)))
         for n, ev in enumerate(events):
             ev["id"] = f"{be}.h{seed}.{h}.{n}"
